@@ -50,7 +50,7 @@ def gen_cases(run):
     rng = run.rng
     quick = run.tier == "quick"
     n_ast = 420 if quick else 6000
-    n_prog = 110 if quick else 1500
+    n_prog = 110 if quick else 600
     g = X.Gen(rng, "fold")
     cases = list(CORPUS)
     while len(cases) < len(CORPUS) + n_ast:
